@@ -268,7 +268,7 @@ def load_known():
             continue
         kind, pid, rest = m.groups()
         ent = {'property': pid, 'text': rest}
-        mo = re.search(r'obligation=(\S+)', rest)
+        mo = re.search(r'obligation=(.+?)\s+::', rest)
         if mo:
             ent['obligation'] = mo.group(1)
         out[kind].append(ent)
